@@ -342,6 +342,17 @@ def gen_decks(outdir: str) -> list[str]:
     fb = sh.build_freeform(Emu(10), Emu(10))
     fb.add_line_segments([(Emu(100), Emu(10)), (Emu(100), Emu(100))])
     fb.convert_to_shape()
+    # a group as other producers write it: a drawing canvas scaled onto the slide - its child window (a:chOff / a:chExt) is NOT the
+    # tight bounding box of its members and its frame is not the window (lxml edit; python-pptx itself always writes the tight box)
+    g2 = sh.add_group_shape()
+    g2.shapes.add_shape(MSO_SHAPE.RECTANGLE, Emu(100), Emu(200), Emu(3000), Emu(2000))
+    g2.shapes.add_textbox(Emu(500), Emu(600), Emu(1000), Emu(700)).text_frame.text = "in canvas"
+    xf = g2._element.find("{%s}grpSpPr/{%s}xfrm" % (F.NS_P, "http://schemas.openxmlformats.org/drawingml/2006/main"))
+    for tag, attrs in (("off", {"x": "914400", "y": "457200"}), ("ext", {"cx": "1828800", "cy": "1371600"}),
+                       ("chOff", {"x": "0", "y": "0"}), ("chExt", {"cx": "8000", "cy": "6000"})):
+        el = xf.find("{http://schemas.openxmlformats.org/drawingml/2006/main}%s" % tag)
+        for k, v in attrs.items():
+            el.set(k, v)
     s.notes_slide.notes_text_frame.text = "note"
     p = os.path.join(outdir, "gen-shapes.pptx")
     prs.save(p)
